@@ -1,3 +1,310 @@
+//! C05 — results never depend on what the codec object did before.
+//! Every sequence of d rounds on one object over a colliding configuration alphabet, with every way
+//! of moving from one round to the next (explicit reset, implicit reset by dropping the result,
+//! recycling the working space through into_parts/new(Some(work)) into any rate), earlier rounds
+//! completed or abandoned half-way; the last round is compared with a fresh object given the same
+//! inputs (differential, no expected bytes) and with the reference.
+use crate::core::*;
+use crate::json::J;
+use crate::kv::*;
 use crate::report::*;
-pub fn run(_ctx: &Ctx, rep: &mut Report) { rep.machinery_errors.push("not implemented".into()); }
-pub fn replay(_ctx: &Ctx, _case: &str) -> Result<(), String> { Err("not implemented".into()) }
+use crate::with_engine;
+
+type V = (String, String);
+
+pub const CFGS: [(usize, usize, usize); 8] = [(3, 2, 64), (2, 3, 64), (5, 3, 66), (3, 5, 130), (1, 1, 2), (4, 4, 64), (9, 2, 2), (2, 9, 2)];
+
+#[derive(Clone, Debug)]
+struct Step {
+    cfg: usize,
+    /// how we got here from the previous round: 'n' new object (first step), 'r' reset,
+    /// 'i' implicit (result dropped, same configuration), 'H'/'L'/'D' recycle into that rate
+    trans: char,
+    /// data id of this round
+    data: u8,
+    /// decoder received-set shape: 0 max loss (first recovery), 1 every other, 2 surplus (all but original 0)
+    shape: u8,
+    /// round abandoned after the adds (no encode/decode)
+    abandoned: bool,
+}
+
+fn fmt_steps(s: &[Step]) -> String {
+    s.iter().map(|s| format!("{}{}{}{}{}", s.cfg, s.trans, s.data, s.shape, if s.abandoned { 'a' } else { 'c' })).collect::<Vec<_>>().join(";")
+}
+fn parse_steps(s: &str) -> Vec<Step> {
+    s.split(';')
+        .map(|t| {
+            let c: Vec<char> = t.chars().collect();
+            Step { cfg: c[0].to_digit(10).unwrap() as usize, trans: c[1], data: c[2].to_digit(10).unwrap() as u8, shape: c[3].to_digit(10).unwrap() as u8, abandoned: c[4] == 'a' }
+        })
+        .collect()
+}
+
+fn round_data(k: usize, b: usize, id: u8, seed: u64) -> Vec<Vec<u8>> {
+    match id {
+        0 => data_dense(k, b, seed ^ 0xA),
+        1 => data_dense(k, b, seed ^ 0xB),
+        _ => data_ones(k, b),
+    }
+}
+
+fn shape_sets(k: usize, r: usize, shape: u8) -> (Vec<usize>, Vec<usize>) {
+    let m = k.min(r);
+    match shape {
+        0 => ((m..k).collect(), (0..m).collect()),
+        1 => {
+            let og: Vec<usize> = (0..k).filter(|i| i % 2 == 1).collect();
+            let need = k - og.len();
+            let mut rg: Vec<usize> = (0..r).rev().take(need).collect();
+            rg.sort();
+            if rg.len() < need {
+                // not enough recovery shards for this shape: fall back to max loss
+                return ((m..k).collect(), (0..m).collect());
+            }
+            (og, rg)
+        }
+        _ => ((1..k).collect(), (0..r).collect()),
+    }
+}
+
+fn kind_of(c: char) -> Kind {
+    match c {
+        'H' => Kind::High,
+        'L' => Kind::Low,
+        'D' => Kind::Def,
+        _ => panic!("kind char {c}"),
+    }
+}
+
+/// run the sequence on one object; returns the output of the last round
+fn run_seq<E: Eng>(decoder: bool, kind0: Kind, soil: Option<u64>, steps: &[Step], seed: u64, refm: &RefModel) -> Result<Vec<(usize, Vec<u8>)>, V> {
+    let mut kind = kind0;
+    let mut enc: Option<AnyEnc<E>> = None;
+    let mut dec: Option<AnyDec<E>> = None;
+    let mut last_out = Vec::new();
+    for (si, st) in steps.iter().enumerate() {
+        let (k, r, b) = CFGS[st.cfg];
+        let ctx = |what: &str| format!("round {si} ({k},{r},{b}) {what}");
+        match st.trans {
+            'n' => {
+                if decoder {
+                    dec = Some(make_decoder::<E>(kind, k, r, b, soil).map_err(|e| (ctx("new Ok"), format!("Err({e:?})")))?);
+                } else {
+                    enc = Some(make_encoder::<E>(kind, k, r, b, soil).map_err(|e| (ctx("new Ok"), format!("Err({e:?})")))?);
+                }
+            }
+            'r' => {
+                if decoder {
+                    dec.as_mut().unwrap().reset(k, r, b).map_err(|e| (ctx("reset Ok"), format!("Err({e:?})")))?;
+                } else {
+                    enc.as_mut().unwrap().reset(k, r, b).map_err(|e| (ctx("reset Ok"), format!("Err({e:?})")))?;
+                }
+            }
+            'i' => {}
+            c => {
+                kind = kind_of(c);
+                if decoder {
+                    let w = dec.take().unwrap().into_work().unwrap();
+                    dec = Some(AnyDec::<E>::new(kind, k, r, b, Some(w)).map_err(|e| (ctx("new(Some(work)) Ok"), format!("Err({e:?})")))?);
+                } else {
+                    let w = enc.take().unwrap().into_work().unwrap();
+                    enc = Some(AnyEnc::<E>::new(kind, k, r, b, Some(w)).map_err(|e| (ctx("new(Some(work)) Ok"), format!("Err({e:?})")))?);
+                }
+            }
+        }
+        let originals = round_data(k, b, st.data, seed ^ si as u64);
+        if !decoder {
+            let e = enc.as_mut().unwrap();
+            let n_add = if st.abandoned { (k + 1) / 2 } else { k };
+            for o in originals.iter().take(n_add) {
+                e.add(o).map_err(|e| (ctx("add_original_shard Ok"), format!("Err({e:?})")))?;
+            }
+            if !st.abandoned {
+                let res = e.encode().map_err(|e| (ctx("encode Ok"), format!("Err({e:?})")))?;
+                last_out = res.recovery_iter().enumerate().map(|(i, s)| (i, s.to_vec())).collect();
+            }
+        } else {
+            let d = dec.as_mut().unwrap();
+            let recovery = refm.encode(spec_is_high(kind, k, r), k, r, &originals);
+            let (og, rg) = shape_sets(k, r, st.shape);
+            let (og, rg) = if st.abandoned { (og[..og.len() / 2].to_vec(), rg[..(rg.len() + 1) / 2].to_vec()) } else { (og, rg) };
+            for &i in &og {
+                d.add_original(i, &originals[i]).map_err(|e| (ctx("add_original_shard Ok"), format!("Err({e:?})")))?;
+            }
+            for &j in &rg {
+                d.add_recovery(j, &recovery[j]).map_err(|e| (ctx("add_recovery_shard Ok"), format!("Err({e:?})")))?;
+            }
+            if !st.abandoned {
+                let res = d.decode().map_err(|e| (ctx("decode Ok"), format!("Err({e:?})")))?;
+                last_out = res.restored_original_iter().map(|(i, s)| (i, s.to_vec())).collect();
+            }
+        }
+    }
+    Ok(last_out)
+}
+
+fn check_seq(eng: &str, decoder: bool, kind0: Kind, soil: u64, steps: &[Step], seed: u64, refm: &RefModel) -> Result<(), V> {
+    let soil_o = if soil == 0 { None } else { Some(soil) };
+    let res = guard(|| -> Result<(), V> {
+        with_engine!(eng, E => {
+            let got = run_seq::<E>(decoder, kind0, soil_o, steps, seed, refm)?;
+            // fresh twin: only the last round, same kind as the object has at the end
+            let mut kind = kind0;
+            for s in steps { if matches!(s.trans, 'H' | 'L' | 'D') { kind = kind_of(s.trans); } }
+            let last = steps.last().unwrap();
+            let mut fresh_step = last.clone();
+            fresh_step.trans = 'n';
+            // the data of the last round depends on its position in the sequence: keep it
+            let si = steps.len() - 1;
+            let fresh = {
+                let (k, r, b) = CFGS[last.cfg];
+                let originals = round_data(k, b, last.data, seed ^ si as u64);
+                if !decoder {
+                    let mut e = AnyEnc::<E>::new(kind, k, r, b, None).map_err(|e| ("fresh new Ok".to_string(), format!("{e:?}")))?;
+                    for o in &originals { e.add(o).map_err(|e| ("fresh add Ok".to_string(), format!("{e:?}")))?; }
+                    let res = e.encode().map_err(|e| ("fresh encode Ok".to_string(), format!("{e:?}")))?;
+                    let out: Vec<(usize, Vec<u8>)> = res.recovery_iter().enumerate().map(|(i, s)| (i, s.to_vec())).collect();
+                    // and the reference
+                    let want = refm.encode(spec_is_high(kind, k, r), k, r, &originals);
+                    let want: Vec<(usize, Vec<u8>)> = want.into_iter().enumerate().collect();
+                    if out != want {
+                        return Err(("fresh object output == reference".to_string(), "differs (C02 territory)".to_string()));
+                    }
+                    out
+                } else {
+                    let recovery = refm.encode(spec_is_high(kind, k, r), k, r, &originals);
+                    let (og, rg) = shape_sets(k, r, last.shape);
+                    let mut d = AnyDec::<E>::new(kind, k, r, b, None).map_err(|e| ("fresh new Ok".to_string(), format!("{e:?}")))?;
+                    for &i in &og { d.add_original(i, &originals[i]).map_err(|e| ("fresh add Ok".to_string(), format!("{e:?}")))?; }
+                    for &j in &rg { d.add_recovery(j, &recovery[j]).map_err(|e| ("fresh add Ok".to_string(), format!("{e:?}")))?; }
+                    let res = d.decode().map_err(|e| ("fresh decode Ok".to_string(), format!("{e:?}")))?;
+                    let out: Vec<(usize, Vec<u8>)> = res.restored_original_iter().map(|(i, s)| (i, s.to_vec())).collect();
+                    let want: Vec<(usize, Vec<u8>)> = (0..k).filter(|i| !og.contains(i)).map(|i| (i, originals[i].clone())).collect();
+                    if out != want {
+                        return Err(("fresh object output == missing originals".to_string(), "differs (C01 territory)".to_string()));
+                    }
+                    out
+                }
+            };
+            if got != fresh {
+                let i = got.iter().zip(&fresh).position(|(a, b)| a != b);
+                return Err((
+                    format!("last round output == fresh object's ({} shards, first {})", fresh.len(), fresh.first().map(|(i, s)| format!("{i}:{}", hex(s))).unwrap_or_default()),
+                    format!("{} shards, first difference at position {i:?}: {}", got.len(), i.and_then(|i| got.get(i)).map(|(i, s)| format!("{i}:{}", hex(s))).unwrap_or_default()),
+                ));
+            }
+            Ok(())
+        })
+    });
+    match res {
+        Ok(r) => r,
+        Err(p) => Err(("no panic".into(), format!("PANIC: {p}"))),
+    }
+}
+
+pub fn replay(_ctx: &Ctx, case: &str) -> Result<(), String> {
+    let kv = Kv::parse(case)?;
+    let refm = RefModel::new();
+    check_seq(kv.str("eng"), kv.str("dir") == "dec", Kind::parse(kv.str("kind")), kv.u64("soil"), &parse_steps(kv.str("steps")), kv.u64("seed"), &refm).map_err(|(e, o)| format!("expected {e}; observed {o}"))
+}
+
+fn gen_sequences(decoder: bool, kind0: Kind, d: usize, thorough: bool) -> Vec<Vec<Step>> {
+    // transitions available
+    let mut out: Vec<Vec<Step>> = Vec::new();
+    let trans: Vec<char> = if kind0 == Kind::Rs { vec!['r', 'i'] } else { vec!['r', 'i', 'H', 'L', 'D'] };
+    // recursive build
+    fn rec(cur: &mut Vec<Step>, d: usize, decoder: bool, trans: &[char], thorough: bool, out: &mut Vec<Vec<Step>>) {
+        let pos = cur.len();
+        let last = pos + 1 == d;
+        for cfg in 0..CFGS.len() {
+            let tlist: Vec<char> = if pos == 0 { vec!['n'] } else { trans.to_vec() };
+            for &t in &tlist {
+                if t == 'i' && (cur[pos - 1].cfg != cfg || cur[pos - 1].abandoned) {
+                    continue; // implicit reset keeps the configuration and needs a completed round
+                }
+                // earlier rounds: fixed data/shape, completed or abandoned; last round: every data x shape
+                let variants: Vec<(u8, u8, bool)> = if last {
+                    let mut v = Vec::new();
+                    for data in 0..3u8 {
+                        for shape in 0..(if decoder { 3u8 } else { 1 }) {
+                            v.push((data, shape, false));
+                        }
+                    }
+                    v
+                } else if thorough || pos == 0 {
+                    vec![(0, 0, false), (1, 2, true)]
+                } else {
+                    vec![(0, 0, false)]
+                };
+                for (data, shape, abandoned) in variants {
+                    cur.push(Step { cfg, trans: t, data, shape, abandoned });
+                    if last {
+                        out.push(cur.clone());
+                    } else {
+                        rec(cur, d, decoder, trans, thorough, out);
+                    }
+                    cur.pop();
+                }
+            }
+        }
+    }
+    let mut cur = Vec::new();
+    rec(&mut cur, d, decoder, &trans, thorough, &mut out);
+    out
+}
+
+pub fn run(ctx: &Ctx, rep: &mut Report) {
+    let refm = RefModel::new();
+    let seed = ctx.seed;
+    rep.rule = "case = sequence of d rounds on one object: configurations from an 8-member colliding alphabet (shrinking/growing counts, sizes 2/64/66/130, both rates), transitions reset / implicit / recycle into {high,low,default}, earlier rounds completed or abandoned after half of the adds, last round over 3 data sets (x3 received-set shapes for decoders), object fresh or soiled; oracle = fresh object with the last round only (and the reference); non-trivial = every sequence with d>=2; distinct by (direction, start kind, engine, soil, sequence)".into();
+    rep.assume("soiled start = working space filled with non-zero bytes, full bitmap and maximal counters through the public API");
+    let mut jobs: Vec<(&'static str, bool, Kind, u64, Vec<Step>)> = Vec::new();
+    let dmax_all = if ctx.thorough() { 3 } else { 2 };
+    for decoder in [false, true] {
+        for kind0 in [Kind::Rs, Kind::Def, Kind::High, Kind::Low] {
+            let engs: Vec<&'static str> = if kind0 == Kind::Rs { vec!["default"] } else if ctx.thorough() { engines_all().into_iter().filter(|e| *e != "default").collect() } else { engines_fast() };
+            for (ei, eng) in engs.iter().enumerate() {
+                for d in 1..=dmax_all {
+                    // depth 3 only on the first fast engine (nosimd) and the default engine
+                    if d == 3 && !(ei == 0 && *eng != "naive" || *eng == "nosimd" || *eng == "default") {
+                        continue;
+                    }
+                    for seq in gen_sequences(decoder, kind0, d, ctx.thorough() && d < 3) {
+                        for soil in [0u64, seed | 1] {
+                            if d == 3 && soil == 0 {
+                                continue;
+                            }
+                            jobs.push((eng, decoder, kind0, soil, seq.clone()));
+                        }
+                    }
+                }
+            }
+        }
+    }
+    rep.bound("depth", J::s(format!("d <= {dmax_all} (d = 3: nosimd and default engine, soiled start, earlier rounds completed)")));
+    rep.bound("alphabet", J::s(format!("{CFGS:?}")));
+    let results: Vec<Result<(), V>> = par_for(jobs.len(), 16, |i| {
+        let (eng, decoder, kind0, soil, seq) = &jobs[i];
+        check_seq(eng, *decoder, *kind0, *soil, seq, seed, &refm)
+    });
+    let mut by_depth = [0u64; 4];
+    for ((eng, decoder, kind0, soil, seq), res) in jobs.iter().zip(results) {
+        rep.states += seq.len() as u64;
+        rep.transitions += seq.len() as u64;
+        rep.traces += 1;
+        rep.evaluations += 1;
+        by_depth[seq.len()] += 1;
+        if seq.len() >= 2 {
+            rep.distinct += 1;
+        }
+        if let Err((exp, obs)) = res {
+            let kv = Kv::new().with("eng", eng).with("dir", if *decoder { "dec" } else { "enc" }).with("kind", kind0.name()).with("soil", soil).with("seed", seed).with("steps", fmt_steps(seq));
+            rep.violation(Violation { key: format!("{}-{}-{}-soil{}-{}", if *decoder { "dec" } else { "enc" }, kind0.name(), eng, (*soil != 0) as u8, fmt_steps(seq)), case: kv.dump(), expected: exp, observed: obs });
+        }
+    }
+    rep.extra("sequences_by_depth", J::Arr(by_depth.iter().map(|x| J::i(*x)).collect()));
+    for i in [0, jobs.len() / 3, jobs.len() / 2, jobs.len() - 1] {
+        let (eng, decoder, kind0, soil, seq) = &jobs[i];
+        rep.sample(Kv::new().with("eng", eng).with("dir", if *decoder { "dec" } else { "enc" }).with("kind", kind0.name()).with("soil", soil).with("seed", seed).with("steps", fmt_steps(seq)).dump());
+    }
+}
